@@ -403,7 +403,7 @@ void Runner::op_drain_run(Thread *t, int idx, const Op &op, OpRes &res) {
     release_strings();
     return;
   }
-  if (is_run && v < 0 && !c) {  // start failed inside run
+  if (is_run && v < 0 && (!c || !c->image) && d.ncalls == 0) {  // start failed inside run
     release_strings();
     return;
   }
